@@ -67,7 +67,14 @@ func genBroadTransferNoPassthrough(t *rapid.T, w *world.World) kit.Transfer {
 
 func genMixedPacket(t *rapid.T, w *world.World) kit.Transfer {
 	tr := genBroadTransfer(t, w)
-	switch pick(t, "packet/class", []string{"orbiter", "orbiter", "orbiter", "orbiter", "orbiter", "orbiter", "receiver", "receiver", "mutated", "garbage", "spelled", "crossed-token", "unregistered-action", "unrouted-protocol", "foreign-coin"}) {
+	switch pick(t, "packet/class", []string{"orbiter", "orbiter", "orbiter", "orbiter", "orbiter", "orbiter", "receiver", "receiver", "mutated", "garbage", "spelled", "crossed-token", "unregistered-action", "unrouted-protocol", "foreign-coin", "case-fold-token"}) {
+	case "case-fold-token":
+		// a denomination that differs from another collateral token's denomination by letter case
+		// only, routed through that other token (coins of it may sit on the account: mint_to_orbiter)
+		tr.Denom = world.SwapDenomUpper
+		tr.Actions = nil
+		tr.Amount = fmt.Sprint(1 + rapid.IntRange(0, 999).Draw(t, "casefold/amount"))
+		tr.Route = kit.Route{Kind: "hyp", TokenID: append([]byte{}, w.HypToken[world.SwapDenom]...), Domain: pick(t, "casefold/domain", world.HypDomains), Recipient: kit.Bytes32(t, "casefold/rcpt")}
 	case "foreign-coin":
 		// a coin that is not a Noble-native coin on its way back (native of the sender's chain, or
 		// a voucher with a longer trace), addressed to the orbiter account with a valid payload
